@@ -109,13 +109,17 @@ CHECKS = {
     ),
     "C12": dict(
         category="proof",
-        text="Source-location arithmetic (crates/steel-parser/src/span.rs) under Verus with contracts injected at the real signatures: new/double/"
-             "merge build exactly the stated fields, width cannot underflow on well-formed spans, and coalesce_span returns the tight hull of ANY "
-             "number of spans (inductive loop invariant, no bound) - so a derived location lies inside the text whenever its parts do.",
+        text="(1) Source-location arithmetic (span.rs) under Verus with contracts injected at the real signatures: new/double/merge build exactly "
+             "the stated fields, width cannot underflow on well-formed spans, coalesce_span returns the tight hull of ANY number of spans "
+             "(inductive loop invariant, no bound) - a derived location lies inside the text whenever its parts do. (2) Lexer position "
+             "bookkeeping on the REAL steel-parser crate under Kani (bounded: concrete / 2-character texts incl. 2-, 3-, 4-byte characters): "
+             "strip_shebang_line returns (chars, bytes), after TokenStream::new the byte offset equals the bytes the character iterator consumed, "
+             "Lexer::eat advances by the encoded length, IdentBuffer replays escaped identifiers exactly. (3) The writer's classification of a "
+             "complex number's imaginary part (finite / negative) for every f64.",
         design_ref="DESIGN.md section 3, C12",
-        note="Only the Span kernel of the property. Totality of the lexer/parser on arbitrary text, lexer-produced spans, and the write/read round trip are "
-             "not decided in this revision (string-level reasoning is outside Verus' subset and costs minutes per 3 bytes in CBMC).",
-        technique="contract-based deductive verification: verbatim extraction + Verus (Z3) with requires/ensures and a loop invariant",
+        note="Totality of the lexer/parser on arbitrary text and the write/read round trip as a whole are not decided (string search is out of "
+             "CBMC's reach beyond a few concrete texts); the parser proper, printer and print.scm are not covered.",
+        technique="contract-based deductive verification: Verus (Z3) with requires/ensures and a loop invariant on verbatim span.rs; Kani contract harnesses on the real steel-parser crate",
     ),
     "C03": dict(
         category="other",
